@@ -92,6 +92,9 @@ pub fn hostile_string(k: u64) -> Vec<u8> {
         "\u{1F600}\u{1F600}\u{1F600}\u{1F600}".as_bytes().to_vec(),
         vec![b'x'; 763],
         vec![b'y'; 764],
+        vec![b'n'; 509],
+        vec![b'n'; 510],
+        vec![b'n'; 600],
         Vec::new(),
         "re\u{301}alm\u{ad}\u{2168}".as_bytes().to_vec(),
         "\"quoted\\\"".as_bytes().to_vec(),
@@ -332,7 +335,13 @@ impl RefServer {
                     "438" => {
                         // the nonce is rotated only when the personality expires it; a request that merely
                         // carries a stale nonce is told the nonce currently in force
-                        let nonce = match (&self.cur_nonce, forced == "438") {
+                        // the new nonce may carry another "username anonymity" bit than the one it replaces
+                        let mut anon_changed = false;
+                        if let Some(a) = kv_get(spec, "anon") {
+                            anon_changed = self.ses_anon != (a == "1");
+                            self.ses_anon = a == "1";
+                        }
+                        let nonce = match (&self.cur_nonce, forced == "438" || anon_changed) {
                             (Some(n), false) => n.clone(),
                             _ => self.fresh_nonce(),
                         };
